@@ -336,6 +336,50 @@ pub fn run(ctx: &Ctx) -> i32 {
         Acc::merge,
         acc_zero,
     );
+    // 4d. several quoted data in one form keep their identities apart: every ordered pair of data that look alike when
+    // displayed (a string, a symbol, a character, a number with the same letters) in lists and vectors of 1..6 elements,
+    // quoted side by side in one form and in a procedure body
+    let a_pairs = {
+        let mut acc = Acc::new();
+        let mut vm = None::<Vm>;
+        let alike: Vec<Vec<&str>> = vec![vec!["\"d\"", "d", "#\\d"], vec!["\"1\"", "1", "#\\1", "1.0"], vec!["\"a b\"", "a b"], vec!["\"()\"", "()"], vec!["\"#t\"", "#t"]];
+        let mut data_texts: Vec<String> = vec![];
+        for group in &alike {
+            for v in group {
+                for len in [1usize, 3, 4, 5, 6] {
+                    let pad: Vec<String> = (0..len - 1).map(|i| format!("p{}", i)).collect();
+                    data_texts.push(format!("({} {})", pad.join(" "), v));
+                    data_texts.push(format!("#({} {})", pad.join(" "), v));
+                }
+            }
+        }
+        for (i, d1) in data_texts.iter().enumerate() {
+            for (j, d2) in data_texts.iter().enumerate() {
+                if i == j {
+                    continue;
+                }
+                for form in [format!("(list '{} '{})", d1, d2), format!("((lambda () (list '{} (car (list '{})))))", d1, d2)] {
+                    acc.evals += 1;
+                    let want = parse::parse_text(&format!("({} {})", d1, d2)).unwrap().0;
+                    let v = vm.get_or_insert_with(Vm::new);
+                    let got = std::panic::catch_unwind(std::panic::AssertUnwindSafe(|| v.eval_text(&form).map(|(c, _)| c)));
+                    match got {
+                        Ok(Ok(c)) if identical(&c, &want) => acc.nontrivial += 1,
+                        other => {
+                            let shown = match other { Ok(Ok(c)) => format!("{:#}", c), Ok(Err(e)) => format!("error: {}", e), Err(e) => { vm = None; format!("panic: {}", panic_message(&e)) } };
+                            acc.violation(Violation {
+                                key: format!("quoted-side-by-side:{}", form),
+                                class: Some("several-quoted-data-in-one-form".into()),
+                                observed: "quoted-datum-changed".into(),
+                                detail: json!({"session": [form], "expected": format!("{:#}", want), "observed": shown}),
+                            });
+                        }
+                    }
+                }
+            }
+        }
+        acc
+    };
     // 5. containers: shape chains and small trees
     let n_leaves = data::leaf_atoms().len();
     let depth = std::env::var("C10_DEPTH").ok().and_then(|s| s.parse().ok()).unwrap_or(ctx.tier.pick(4u32, 6u32));
@@ -376,11 +420,11 @@ pub fn run(ctx: &Ctx) -> i32 {
     rep.extra("container_depth", json!(depth));
     rep.extra("small_trees", json!(n_trees));
     let mut acc = Acc::new();
-    for a in [a_chars, a_str, a_int, a_dbl, a_sym, a_symname, a_reader, a_cont, a_tree] {
+    for a in [a_chars, a_str, a_int, a_dbl, a_sym, a_symname, a_reader, a_pairs, a_cont, a_tree] {
         acc = Acc::merge(acc, a);
     }
     rep.rule = format!(
-        "datum d -> format!(\"{{:#}}\") -> parse_text -> d' must be one datum identical to d in structure, value and exactness, and write(d') = write(d); Vm::eval((quote d)) must return d. Enumerated: every Unicode scalar value as a character, as a one-character string and as a list element; all strings of <= 3 characters over {:?}; {} exact numbers (integers k*2^e+d around the fixnum/bignum boundary, the C08 palette in every representation, reduced rationals); doubles structurally exhaustively: every exponent field x {} mantissa patterns x both signs = {} plus {} special values; every token of <= 3 characters over a 23-character alphabet (<= 2 over 27) that the reader classifies as a symbol; every scalar value as a one-character symbol name and as the first / second character of a two-character name, interned as string->symbol does (3.3 M symbols); every datum the reader produces from a text of <= 4 lexemes over 22 lexemes (number prefixes, brackets, quote characters, dot, backslash, atoms); all container chains of depth <= {} over 13 one-hole shapes x {} leaves; all trees of <= {} nodes over 6 atoms. A case is non-trivial when the full trip succeeded; cases are distinct data.",
+        "datum d -> format!(\"{{:#}}\") -> parse_text -> d' must be one datum identical to d in structure, value and exactness, and write(d') = write(d); Vm::eval((quote d)) must return d, also when another quoted datum that looks the same when displayed (a string / symbol / character / number with the same letters, in lists and vectors of 1..6 elements) stands in the same form: every ordered pair of 140 such data, side by side and inside a procedure body. Enumerated: every Unicode scalar value as a character, as a one-character string and as a list element; all strings of <= 3 characters over {:?}; {} exact numbers (integers k*2^e+d around the fixnum/bignum boundary, the C08 palette in every representation, reduced rationals); doubles structurally exhaustively: every exponent field x {} mantissa patterns x both signs = {} plus {} special values; every token of <= 3 characters over a 23-character alphabet (<= 2 over 27) that the reader classifies as a symbol; every scalar value as a one-character symbol name and as the first / second character of a two-character name, interned as string->symbol does (3.3 M symbols); every datum the reader produces from a text of <= 4 lexemes over 22 lexemes (number prefixes, brackets, quote characters, dot, backslash, atoms); all container chains of depth <= {} over 13 one-hole shapes x {} leaves; all trees of <= {} nodes over 6 atoms. A case is non-trivial when the full trip succeeded; cases are distinct data.",
         STR_CHARS, n_ints, 24, nd, specials.len(), depth, n_leaves, ctx.tier.pick(3, 4)
     );
     rep.assumptions.push("infinities and NaN are outside the property; of the 2^63 finite doubles the structured set above is covered, the rest is not claimed".into());
